@@ -77,6 +77,15 @@ def run_script_property(prop, level, kinds=None, extra_rule="", mc=True, signatu
                 c[0], v["clause"], v["step"], json.dumps(tr["ev"][v["step"] - 1]), cls, json.dumps(tr["O"]),
                 r["repr"][0], r["repr"][1])
             chk.violation(sig, {"case": c, "events": tr["ev"]}, msg)
+    # vacuity guard: which event kinds and which compound edit classes the validated scripts actually contain
+    kinds_seen, classes_seen = {}, {}
+    for _, r in ok:
+        for x in r["trace"]["ev"]:
+            kinds_seen[x["e"]] = kinds_seen.get(x["e"], 0) + 1
+            if x["e"] in ("open", "change"):
+                classes_seen[x.get("cls", "?")] = classes_seen.get(x.get("cls", "?"), 0) + 1
+    chk.extra["events_by_kind"] = kinds_seen
+    chk.extra["frames_and_changes_by_edit_class"] = classes_seen
     if ok:
         mid = ok[len(ok) // 3]
         chk.sample({"case": mid[0], "events": mid[1]["trace"]["ev"]})
